@@ -23,6 +23,29 @@ for m in sorted(glob.glob(V + "/seeded/*/meta.json"), key=lambda p: (p.split("/"
 def put(d, a, b, body):
     i, j = d.index(a) + len(a), d.index(b)
     return d[:i] + "\n" + body + "\n" + d[j:]
+# ---- section 16: trusted base as built, from the property modules and the last evidence files
+import importlib, sys
+sys.path.insert(0, V)
+tb = ["| property | theorems (Props) | closed under the global context | axioms reported | trusted / modelled-not-verified (from the property module) | assumptions |", "|---|---|---|---|---|---|"]
+tot = 0
+for i in range(1, 21):
+    pid = "C%02d" % i
+    try:
+        P = importlib.import_module("vlib.props." + pid.lower()).PROP
+    except Exception as ex:
+        continue
+    ev = {}
+    try:
+        ev = json.load(open("%s/evidence/%s.json" % (V, pid)))["coverage"]
+    except Exception:
+        pass
+    tot += ev.get("obligations", 0)
+    cl = lambda xs: "; ".join(str(x).replace("|", "/") for x in xs)
+    tb.append("| %s | %s | %s | %s | %s | %s |" % (pid, ev.get("obligations", "?"), ev.get("closed_under_global_context", "?"),
+              ", ".join(ev.get("axioms_reported", [])) or "none", cl(P.trusted_base), cl(P.assumptions)))
+tb.append("")
+tb.append("Total property theorems at the last runs: %d." % tot)
+d = put(d, "<!-- TB-BEGIN -->", "<!-- TB-END -->", "\n".join(tb))
 d = put(d, "<!-- BUILT-BEGIN -->", "<!-- BUILT-END -->", built)
 d = put(d, "<!-- SEEDED-BEGIN -->", "<!-- SEEDED-END -->", "\n".join(rows))
 open(V + "/DESIGN.md", "w").write(d)
